@@ -1,3 +1,152 @@
 package main
 
-func registerMoreModels(u *Unit) {}
+// More assumed contracts: strconv, encoding/hex, math/big, strings.Split, crypto/rand, net/url, time.
+
+import (
+	"go/types"
+
+	"golang.org/x/tools/go/ssa"
+)
+
+func intRangeFact(t T, typ types.Type) T {
+	lo, hi := typeBounds(typ)
+	if lo == nil {
+		return tTrue
+	}
+	return and(le(bigNum(lo), t), le(t, bigNum(hi)))
+}
+
+func registerMoreModels(u *Unit) {
+	u.reg("strconv.ParseUint", "for base 10 and bit size 64: err == nil iff isdec64(s) (s is a decimal numeral of a value < 2^64, no sign, no spaces); on success the value is decval(s), otherwise 0 or the maximum", nil,
+		func(fx *FX, st *State, c *CallCtx) Val {
+			s := c.Args[0].(VStr).T
+			base, _ := isLit(c.Args[1].(VInt).T)
+			bits, _ := isLit(c.Args[2].(VInt).T)
+			v := fx.fresh("parsed", SInt)
+			fx.assume(tTrue, intRangeFact(v, types.Typ[types.Uint64]))
+			ok := fx.fresh("parseok", SBool)
+			if base == 10 && bits == 64 {
+				fx.assume(tTrue, app(SBool, "=", ok, app(SBool, "isdec64", s)))
+				fx.assume(tTrue, implies(ok, eq(v, app(SInt, "decval", s))))
+			} else {
+				fx.note("strconv.ParseUint with base/bit size other than 10/64: result unconstrained")
+			}
+			_, uhi := typeBounds(types.Typ[types.Uint64])
+			fx.setBounds(v, bigZero, uhi)
+			return VTuple{E: []Val{VInt{v}, fx.condError(st, ok, "parseuint")}}
+		})
+	u.reg("strconv.Atoi", "err == nil iff isint(s) (optional sign, decimal digits, value fits int); on success the value is intval(s)", nil,
+		func(fx *FX, st *State, c *CallCtx) Val {
+			s := c.Args[0].(VStr).T
+			v := fx.fresh("atoi", SInt)
+			fx.assume(tTrue, intRangeFact(v, types.Typ[types.Int]))
+			ok := fx.fresh("atoiok", SBool)
+			fx.assume(tTrue, app(SBool, "=", ok, app(SBool, "isint", s)))
+			fx.assume(tTrue, implies(ok, eq(v, app(SInt, "intval", s))))
+			lo, hi := typeBounds(types.Typ[types.Int])
+			fx.setBounds(v, lo, hi)
+			return VTuple{E: []Val{VInt{v}, fx.condError(st, ok, "atoi")}}
+		})
+	u.reg("strconv.FormatUint", "for base 10 returns dec(v), the canonical decimal numeral of v", nil,
+		func(fx *FX, st *State, c *CallCtx) Val {
+			base, _ := isLit(c.Args[1].(VInt).T)
+			if base != 10 {
+				fx.note("strconv.FormatUint with base other than 10: result unconstrained")
+				return fx.havoc("fmtuint", types.Typ[types.String], tTrue)
+			}
+			return VStr{app(SSeq, "dec", c.Args[0].(VInt).T)}
+		})
+	u.reg("encoding/hex.DecodeString", "err == nil iff ishex(s) (even length, hex digits only); on success the result is a fresh slice holding hexdec(s), of length len(s)/2; on failure the result holds the bytes decoded so far", nil,
+		func(fx *FX, st *State, c *CallCtx) Val {
+			s := c.Args[0].(VStr).T
+			ok := fx.def("hexok", app(SBool, "ishex", s))
+			content := fx.fresh("hexbytes", SSeq)
+			fx.assume(tTrue, implies(ok, eq(content, app(SSeq, "hexdec", s))))
+			r := freshBytes(fx, st, content, "hex")
+			return VTuple{E: []Val{r, fx.condError(st, ok, "hex")}}
+		})
+	u.reg("(*math/big.Int).SetString", "for base 10: ok iff isdecbig(s) (optional sign, decimal digits, optional '_' are not accepted for base 10); on success returns the receiver holding bigval(s)", []int{0},
+		func(fx *FX, st *State, c *CallCtx) Val {
+			z := c.Args[0].(VPtr)
+			s := c.Args[1].(VStr).T
+			ok := fx.def("bigok", app(SBool, "isdecbig", s))
+			fx.writeCheck(st, z.Ref, rootOf(c.C.Args[0]), c.Pos, "big.Int.SetString")
+			// ghost: slot 0 of the string heap of the big.Int object holds its decimal source text
+			sa := sto(sel(st.Hs, z.Ref), z.Off, s)
+			st.Hs = fx.def("Hs", sto(st.Hs, z.Ref, sa))
+			res := VPtr{Ref: fx.def("bigres", ite(ok, z.Ref, num(0))), Off: fx.def("bigoff", ite(ok, z.Off, num(0))), Elem: z.Elem}
+			return VTuple{E: []Val{res, VBool{ok}}}
+		})
+	u.reg("(*math/big.Int).Text", "for base 16 returns bighex(src): the lower-case hexadecimal numeral of the value whose decimal source text is src", nil,
+		func(fx *FX, st *State, c *CallCtx) Val {
+			z := c.Args[0].(VPtr)
+			base, _ := isLit(c.Args[1].(VInt).T)
+			if base != 16 {
+				fx.note("big.Int.Text with base other than 16: result unconstrained")
+				return fx.havoc("bigtext", types.Typ[types.String], tTrue)
+			}
+			fx.nilCheck(st, z.Ref, c.Pos, "big.Int receiver")
+			return VStr{app(SSeq, "bighex", sel(sel(st.Hs, z.Ref), z.Off))}
+		})
+	u.reg("strings.Split", "returns a fresh slice of nparts(s, sep) >= 1 strings, part(s, sep, i); for an empty separator unconstrained", nil,
+		func(fx *FX, st *State, c *CallCtx) Val {
+			return splitModel(fx, st, c, nil)
+		})
+	u.reg("strings.SplitN", "returns a fresh slice of min(nparts, n) strings for n > 0: the first n-1 parts and the unsplit remainder", nil,
+		func(fx *FX, st *State, c *CallCtx) Val {
+			n := c.Args[2].(VInt).T
+			return splitModel(fx, st, c, &n)
+		})
+	u.reg("crypto/rand.Read", "fills b with the next len(b) bytes of the operating system's random stream rng (ghost position rngpos advances by len(b)) and returns (len(b), nil), or returns an error", []int{0},
+		func(fx *FX, st *State, c *CallCtx) Val {
+			b := c.Args[0].(VSlice)
+			fx.writeCheck(st, b.Ref, rootOf(c.C.Args[0]), c.Pos, "rand.Read")
+			ok := fx.fresh("randok", SBool)
+			pos := fx.rngPos
+			arr := fx.fresh("randbytes", SIArr)
+			fx.assume(tTrue, implies(ok, eq(app(SSeq, "view", arr, b.Off, b.Len), app(SSeq, "sub", T{"rng", SSeq}, pos, add(pos, b.Len)))))
+			st.H = fx.def("H", sto(st.H, b.Ref, arr))
+			fx.rngPos = fx.def("rngpos", ite(ok, add(pos, b.Len), pos))
+			fx.rngReads++
+			return VTuple{E: []Val{VInt{ite(ok, b.Len, num(0))}, fx.condError(st, ok, "rand")}}
+		})
+	u.reg("time.Unix", "returns the instant with unixsec == sec (for nsec in 0..999999999)", nil,
+		func(fx *FX, st *State, c *CallCtx) Val {
+			r := fx.havoc("time", c.C.Signature().Results().At(0).Type(), tTrue)
+			ts := flatten(r)
+			sec := c.Args[0].(VInt).T
+			ns := c.Args[1].(VInt).T
+			fx.assume(tTrue, implies(and(le(num(0), ns), le(ns, num(999999999))), eq(app(SInt, "unixsec", ts[0], ts[1]), sec)))
+			return r
+		})
+	u.reg("time.Now", "returns some instant", nil,
+		func(fx *FX, st *State, c *CallCtx) Val {
+			return fx.havoc("now", c.C.Signature().Results().At(0).Type(), tTrue)
+		})
+}
+
+func splitModel(fx *FX, st *State, c *CallCtx, n *T) Val {
+	s, sep := c.Args[0].(VStr).T, c.Args[1].(VStr).T
+	cnt := fx.def("nparts", app(SInt, "nparts", s, sep))
+	fx.assume(tTrue, ge(cnt, num(1)))
+	ln := cnt
+	rt := c.C.Signature().Results().At(0).Type()
+	et := rt.Underlying().(*types.Slice).Elem()
+	r := fx.allocObj(st, "split", et)
+	arr := fx.fresh("splitarr", SSArr)
+	if n != nil {
+		ln = fx.def("nsplit", ite(gt(*n, num(0)), app(SInt, "imin", cnt, *n), ite(eq(*n, num(0)), num(0), cnt)))
+		// SplitN: parts 0..ln-2 are part(s,sep,i); the last is the remainder
+		fx.line("(assert (forall ((k!s Int)) (! (=> (and (<= 0 k!s) (< k!s (- " + ln.S + " 1))) (= (select " + arr.S + " k!s) (part " + s.S + " " + sep.S + " k!s))) :pattern ((select " + arr.S + " k!s)))))")
+		fx.assume(tTrue, implies(ge(ln, num(1)), app(SBool, "=", sel(arr, sub(ln, num(1))), app(SSeq, "partrest", s, sep, sub(ln, num(1))))))
+	} else {
+		fx.line("(assert (forall ((k!s Int)) (! (=> (and (<= 0 k!s) (< k!s " + ln.S + ")) (= (select " + arr.S + " k!s) (part " + s.S + " " + sep.S + " k!s))) :pattern ((select " + arr.S + " k!s)))))")
+	}
+	st.Hs = fx.def("Hs", sto(st.Hs, r, arr))
+	_, hi := typeBounds(types.Typ[types.Int])
+	fx.assume(tTrue, le(ln, bigNum(hi)))
+	fx.setBounds(ln, bigZero, hi)
+	return VSlice{Ref: r, Off: num(0), Len: ln, Cap: ln, Elem: et}
+}
+
+var _ = ssa.NaiveForm
